@@ -629,8 +629,15 @@ def run_extra(ctx):
                                         roots.add(r1)
                 # a size accumulated element by element (`for name in names { size += name.len() + 1 }`) is computed over `names`
                 for lp0 in hirq.find(body, "for"):
-                    if set(hirq.pat_binds(lp0["pat"])) & roots and root_name(lp0["iter"]):
+                    if (lp0.get("ln") or 0) < (w.get("ln") or 0) and set(hirq.pat_binds(lp0["pat"])) & roots and root_name(lp0["iter"]):
                         roots.add(root_name(lp0["iter"]))
+                # ... and a size accumulated from values that are themselves collected (`size += name.len() + 1; names.push(name)`)
+                # is computed over that collection
+                for c0 in hirq.walk(body):
+                    if c0.get("k") == "mcall" and c0["m"] == "push" and (c0.get("ln") or 0) < (w.get("ln") or 0) and c0.get("args"):
+                        a0 = hirq.strip(c0["args"][0])
+                        if a0.get("k") == "path" and (a0.get("res") or {}).get("local") in roots and root_name(c0["recv"]):
+                            roots.add(root_name(c0["recv"]))
                 nxt = next((s2 for s2 in stmts[i + 1:] if s2.get("k") in ("for",)), None)
                 if not roots or nxt is None:
                     continue
